@@ -116,7 +116,7 @@ class C07(Check):
         "from templater.process_with_variants directly for pinned cases). Oracle (vlib.tmap.slicemap_problems): raw "
         "slices tile the source in order with equal text, rendered slices tile the rendered text in order, every "
         "source slice within [0,len] with start<=stop, every literal slice with non-empty rendering has identical "
-        "source text; #variants <= limit; an AssertionError raised by TemplatedFile's own length check counts as a "
+        "source text; placeholder (no control flow): the source side of the rendered map tiles the source too and a skipped file is a failure; #variants <= limit; an AssertionError raised by TemplatedFile's own length check counts as a "
         "tiling failure. Non-trivial: more than one variant, or a loop, or whitespace control, or an escaped brace, "
         "or a placeholder replaced by text of another length; distinct by SHA-1 of the case."
     )
@@ -211,7 +211,18 @@ class C07(Check):
             out.excluded = "crash(C04):" + got.type
             return out
         if not got:
-            out.excluded = "templater-refused:TMP" if viols else "skipped"
+            if viols:
+                out.excluded = "templater-refused:TMP"
+                return out
+            if templater == "placeholder":
+                # The placeholder templater has no reason to refuse a file.  No rendering and no violation means the
+                # linter swallowed the SQLFluffSkipFile that TemplatedFile raises when the rendered slices it was
+                # given do not tile the rendered text.
+                direct = guard(lambda: linter.templater.process(in_str=src, fname="t.sql", config=cfg))
+                msg = direct.msg if isinstance(direct, Crash) else "no exception on a direct call"
+                return out.fail(f"file skipped: {msg}", templater=templater, variant="primary", clause="ctor-consistency-skip",
+                                cause="-")
+            out.excluded = "skipped"
             return out
         if len(got) > limit:
             out.fail(f"{len(got)} variants with render_variant_limit={limit}", templater=templater, variant="all",
@@ -227,6 +238,19 @@ class C07(Check):
             probs = slicemap_problems(tf)
             if vi == 0:
                 has_loop = bool(loop_ranges(tf.raw_sliced))
+            if templater == "placeholder" and not probs:
+                # no control flow: the rendered map walks the source once, left to right, so its source side tiles
+                # the source as well
+                spos = 0
+                for i, sl in enumerate(tf.sliced_file):
+                    if sl.source_slice.start != spos:
+                        probs.append(("source-side-tiling", f"slice {i} {sl.slice_type} source {sl.source_slice}, expected "
+                                      f"start {spos}"))
+                        break
+                    spos = sl.source_slice.stop
+                else:
+                    if spos != len(src):
+                        probs.append(("source-side-tiling", f"source side covers {spos} of {len(src)}"))
             for clause, detail in probs:
                 cause = "-"
                 if templater == "jinja" and vi > 0:
